@@ -289,3 +289,6 @@ def run_case(case):
     return run_a(case)
   from props import c19b  # pylint: disable=import-outside-toplevel
   return c19b.run_case(case)
+
+# (appended: sub-lattices added after the seeded waves; kept out of the original RULE text for readability)
+RULE = RULE + '; the second reporter estimate.extract_model_operations is judged on the same geometries; b: 9 programs (incl. merge layers whose fan-in differs from their rank) x 24 memory options x a lattice of cost settings for extract_energy_sum / extract_energy_profile'
